@@ -48,6 +48,9 @@ inductive Ev
   | packet (now : Nat)
   /-- the stream check timer fires at time `now` -/
   | tick (now : Nat)
+  /-- after a PAUSE the session is resumed (PLAY / RECORD again) at time `now`: both clocks start anew
+  (`lastRequestTime = now`, `udpLastPacketTime.Store(now)`; no check runs while the session is paused) -/
+  | restart (now : Nat)
   deriving Repr, DecidableEq
 
 /-- state right after PLAY / RECORD succeeded at time `t0` -/
@@ -62,6 +65,7 @@ def step (cfg : Cfg) (recording : Bool) (s : State) : Ev → State
   | .request now => if s.expired then s else { s with lastReq := now }
   | .packet now => if s.expired then s else { s with lastPkt := now }
   | .tick now => if s.expired then s else { s with expired := expires cfg recording s now }
+  | .restart now => if s.expired then s else { s with lastReq := now, lastPkt := now }
 
 def run (cfg : Cfg) (recording : Bool) : State → List Ev → State
   | s, [] => s
